@@ -101,7 +101,16 @@ impl AffineRepr for AffinePoint {
     type Group = Element;
 
     fn xy(&self) -> Option<(&Self::BaseField, &Self::BaseField)> {
-        self.inner.xy()
+        if self.is_zero() {
+            None
+        } else {
+            self.inner.xy()
+        }
+    }
+
+    fn is_zero(&self) -> bool {
+        // Both (0, 1) and (0, -1) represent the identity (cf. `Element::is_identity`).
+        self.inner.x == Fq::ZERO
     }
 
     fn zero() -> Self {
